@@ -99,7 +99,9 @@ def gen_scenario(r, sid, legacy, long=False):
             F = copy.deepcopy(r.choice(FORMS))
             F["kw"]["dec"] = "d%d" % (d + 1)
             decs.append({"form": F, "style": r.randrange(4)})
-        funcs.append({"name": "f%d" % k, "decs": decs})
+        # the function may also carry triggers of another type (never fired here): they must not change what the
+        # state triggers do - in the legacy subsystem two of them make a second trigger task for the function
+        funcs.append({"name": "f%d" % k, "decs": decs, "others": random.Random(r.random()).choice([0, 0, 1, 2, 2])})
     nb = r.randint(2, 8 if long else 5)
     bursts = [[{"e": r.choice("ab"), "s": rnd_state(r)} for _ in range(r.choice([1, 1, 1, 2, 3]))] for _ in range(nb)]
     # who issues the operations of a burst: the environment (hass.states) or a script (state.set / state.delete)
@@ -113,6 +115,8 @@ def scenario_source(scn):
     for f in scn["funcs"]:
         for d in f["decs"]:
             src.append(decorator_src(d["form"], d["style"]))
+        for j in range(f.get("others", 0)):
+            src.append('@event_trigger("never_%d", kwargs={"dec": "ev%d"})' % (j, j))
         src.append("def %s(**kw):\n    vf.rec(%r, kw)\n" % (f["name"], f["name"]))
     src.append("@service\ndef setter(ops=None):\n    for op in ops:\n        if op[1] is None:\n"
                "            if state.exist(op[0]):\n                state.delete(op[0])\n"
